@@ -416,6 +416,93 @@ func runC14(c *h.Ctx) {
 			}
 		}
 	}
+	// the same subscript node evaluated against several arrays in one query: $[*][...]
+	// (expected: the concatenation of the per-array results; strict fails if any array fails)
+	rr := c.Rand("c14-multi")
+	nm := c.PerShard(c.N(40000, 800000))
+	for i := 0; i < nm; i++ {
+		k := 2 + rr.IntN(2)
+		var inner [][]string
+		var parts []string
+		for j := 0; j < k; j++ {
+			a := arrays[rr.IntN(len(arrays))].elems
+			inner = append(inner, a)
+			parts = append(parts, "["+strings.Join(a, ",")+"]")
+		}
+		ns := 1 + rr.IntN(2)
+		subs := make([]sub, ns)
+		for j := range subs {
+			subs[j].from = c14Bounds[rr.IntN(len(c14Bounds))]
+			if rr.IntN(2) == 0 {
+				b := c14Bounds[rr.IntN(len(c14Bounds))]
+				subs[j].to = &b
+			}
+		}
+		lax := rr.IntN(4) != 0
+		sp := make([]string, len(subs))
+		for j, sb := range subs {
+			sp[j] = sb.text()
+		}
+		ptxt := "$[*][" + strings.Join(sp, ", ") + "]"
+		if !lax {
+			ptxt = "strict " + ptxt
+		}
+		p := cachedPath(ptxt)
+		if p == nil {
+			continue
+		}
+		docText := "[" + strings.Join(parts, ",") + "]"
+		var want []string
+		fails := false
+		for _, a := range inner {
+			pos, ok := sliceOracle(len(a), subs, lax)
+			if !ok {
+				fails = true
+				break
+			}
+			for _, ix := range pos {
+				want = append(want, canonElem(a[ix]))
+			}
+		}
+		o := h.Call("query", p, h.Decode(docText, false), h.Opts{})
+		c.Eval(1)
+		c.Distinct(ptxt, docText)
+		cs := h.Case{Kind: "multi", Path: ptxt, Doc: docText}
+		if o.Class == h.Panic || o.Class == h.Invalid {
+			continue
+		}
+		got := ""
+		if o.Class == h.OK {
+			gs := make([]string, len(o.Items))
+			for j, it := range o.Items {
+				gs[j] = canonJSON(it)
+			}
+			got = strings.Join(gs, " | ")
+		}
+		wantS := strings.Join(want, " | ")
+		good := (fails && o.Class == h.Soft) || (!fails && o.Class == h.OK && got == wantS)
+		if good {
+			c.Held("list")
+			continue
+		}
+		cause := "unexplained"
+		if o.Class == h.OK && !fails {
+			var nn []string
+			for _, w := range want {
+				if w != "null" {
+					nn = append(nn, w)
+				}
+			}
+			if got == strings.Join(nn, " | ") {
+				cause = "subscript-skips-null"
+			}
+		}
+		cl := "list"
+		if cause == "subscript-skips-null" {
+			cl = "null-elements"
+		}
+		c.Violate(cl, h.F("cause", cause, "mode", modeName(lax), "form", "multi-array"), fmt.Sprintf("Query(%s) on %s = %s; slice arithmetic per array gives [%s] (fails: %v)", ptxt, docText, o.Summary(), wantS, fails), cs)
+	}
 	// random larger cases
 	r := c.Rand("c14")
 	nr := c.PerShard(c.N(100000, 2500000))
